@@ -495,7 +495,8 @@ func (h *harness) search(b *base, alphabet []op, c searchCfg) (states, transitio
 		}
 		protected := d < c.faultDepth
 		ev.Par(len(jobs), runtime.NumCPU(), func(i int) {
-			if !protected && r.OutOfTime() {
+			if (!protected && r.OutOfTime()) || r.WayOutOfTime() {
+				// levels that may contain a failed operation are exempt from the ordinary deadline, not from the hard stop
 				r.Incomplete(fmt.Sprintf("%s: search stopped at depth %d", label, d))
 				return
 			}
